@@ -7,6 +7,8 @@ package main
 
 import (
 	"context"
+	"crypto/sha256"
+	"encoding/hex"
 	"flag"
 	"fmt"
 	"math/rand"
@@ -106,6 +108,12 @@ func (b *batch) emit(e ev) {
 	b.w.Emit(vt.M{"ev": "key", "who": e.who, "kt": e.kt, "secret": e.secret, "proto": e.proto, "l1proto": e.l1proto,
 		"mode": e.mode, "eb": e.eb, "ee": e.ee, "dst": e.dst, "srcHost": e.srcHost, "dstHost": e.dstHost,
 		"key": b.kid(e.key), "und": strings.HasPrefix(e.who, "undoc")})
+}
+
+// secretName is the symbolic name of an AS secret: equal bytes <=> equal name.
+func secretName(s []byte) string {
+	h := sha256.Sum256(s)
+	return "secret-" + hex.EncodeToString(h[:6])
 }
 
 func secs(t time.Time) int { return int(t.Unix()) }
@@ -239,12 +247,13 @@ func (b *batch) run(id int, n int) {
 	b.rng.Shuffle(len(ias), func(i, j int) { ias[i], ias[j] = ias[j], ias[i] })
 	dur := []time.Duration{time.Hour, 24 * time.Hour, 10 * time.Minute, 7 * time.Second}[b.rng.Intn(4)]
 	for i := 0; i < 3; i++ {
-		a := &as{ia: addr.MustParseIA(ias[i]), name: fmt.Sprintf("secret%d", i)}
+		a := &as{ia: addr.MustParseIA(ias[i])}
 		a.secret = make([]byte, 1+b.rng.Intn(40))
 		b.rng.Read(a.secret)
 		if i == 2 && b.rng.Intn(2) == 0 { // near miss: the secret of AS 0 with one more byte
 			a.secret = append(append([]byte{}, b.ases[0].secret...), 0)
 		}
+		a.name = secretName(a.secret)
 		svdb, err := svsqlite.NewBackend(fmt.Sprintf("sv-%d-%d", id, i), &db.SqliteConfig{InMemory: true})
 		if err != nil {
 			vt.Fatal("sv db: %v", err)
@@ -276,6 +285,27 @@ func (b *batch) run(id int, n int) {
 			t = time.Unix((base.Unix()/int64(dur/time.Second)+1)*int64(dur/time.Second), 0).Add(time.Duration(b.rng.Intn(3)-1) * time.Second)
 		}
 		b.level2(ctx, b.proto(), b.ases[s], b.ases[d], b.host(), b.host(), t)
+	}
+	// directed: secret values straight from drkey.DeriveSV for neighbouring epochs, protocols and
+	// secrets (epochs that share only their begin or only their end, a secret that is a prefix of
+	// another one): all different terms, so all different keys
+	{
+		a := b.ases[0]
+		b0 := uint32(base.Unix())
+		long := &as{secret: append(append([]byte{}, a.secret...), 0)}
+		long.name = secretName(long.secret)
+		for _, x := range []struct {
+			who    *as
+			p      drkey.Protocol
+			eb, ee uint32
+		}{{a, 1, b0, b0 + 3600}, {a, 1, b0, b0 + 3601}, {a, 1, b0 - 1, b0 + 3600}, {a, 1, b0 + 3600, b0 + 7200},
+			{a, 0, b0, b0 + 3600}, {a, 256, b0, b0 + 3600}, {a, 257, b0, b0 + 3600}, {long, 1, b0, b0 + 3600},
+			{a, 1, b0, b0 + 3600}} {
+			if sv, err := drkey.DeriveSV(x.p, drkey.NewEpoch(x.eb, x.ee), x.who.secret); err == nil {
+				b.emit(ev{who: "host-secret", kt: "sv", secret: x.who.name, proto: int(x.p), l1proto: int(x.p), mode: "-",
+					eb: int(x.eb), ee: int(x.ee), dst: "-", srcHost: "-", dstHost: "-", key: sv.Key})
+			}
+		}
 	}
 	// directed: the derivation inputs that would coincide if the specific derivation were run for
 	// the generic protocol (outside the documented scheme; judged as drift only)
